@@ -229,6 +229,10 @@ pub fn run_shard(spec: &CheckSpec, fam_name: &str, tier: &str, seed: u64, shard:
     let avail = exec::available_levels();
     let gctx = GenCtx { tier_thorough: tier == "thorough", avail: &GEN_LEVELS };
     let Some(fam) = spec.families.iter().find(|f| f.name == fam_name) else { return 2 };
+    // a shard must not outlive the coordinating process (a killed check would leave spinning orphans behind)
+    unsafe {
+        libc::prctl(libc::PR_SET_PDEATHSIG, libc::SIGKILL);
+    }
     crate::guard::install_fatal_handlers(Some(&format!("{stopfile}.crash.{shard}")));
     crate::guard::start_watchdog(if tier == "thorough" { 600 } else { 240 });
     let mut res = ShardResult { digests: vec![], agg: Agg::default(), found: None, harness: None, samples: vec![] };
